@@ -267,6 +267,46 @@ def run(ctx):
                      "a relation can be let through without being compared with the configured tables (an exemption by name ignores SQL scoping: `WITH t AS (SELECT * FROM t) ...`, a later sibling, an outer query or a DML target "
                      "all refer to the real table)", "", w and cb.describe_path(w))
 
+    # the pending verdict belongs to the buffered batch, not to the transaction or the server: it is dropped only where it is consumed
+    # (the arm that answers the client for that batch) - never at a loop end, a release or a timeout
+    if h:
+        po = set(h.locals_named("plugin_output"))
+        hsw2 = switches(h)
+        denyE, _, _ = discr_edges(h, r"plugins::PluginOutput", "Deny", switches_cache=hsw2)
+        icptE, _, _ = discr_edges(h, r"plugins::PluginOutput", "Intercept", switches_cache=hsw2)
+        # explicit arms only: an `otherwise` edge that merely lets an Intercept value through is not an arm that consumes it
+        consume_targets = []
+        for sw in hsw2:
+            d_ = sw.discr() if hasattr(sw, "discr") else None
+            if d_ and "PluginOutput" in str(d_[0]):
+                for vn in ("Deny", "Intercept"):
+                    if vn in d_[2]:
+                        consume_targets.append(d_[2][vn])
+        drops = []
+        for blk, i, st in h.assigns():
+            if st["lhs"]["l"] in po and not st["lhs"]["p"]:
+                is_none = st["rv"]["k"] == "agg" and st["rv"].get("variant") == "None"
+                if st["rv"]["k"] == "use":
+                    is_none = any(o.kind == "agg" and o.extra.get("variant") == "None" for o in origins(h, st["rv"]["op"]))
+                if is_none:
+                    drops.append((blk, st))
+        takes = [c for c in h.calls("re:^core::option::Option::take$", "re:^core::mem::(take|replace)$") if any(o.kind in ("place",) and o.what in po for o in origins(h, c.args[0]))]
+        init_done = False
+        bad = []
+        for blk, st in drops:
+            if any(h.dominates(t_, blk) for t_ in consume_targets):
+                continue
+            # the initialisation before the loops
+            if not any(blk in natural_loop(h, hd) for hd in loop_headers(h)):
+                init_done = True
+                continue
+            bad.append(st["span"])
+        for c in takes:
+            if not any(h.dominates(t_, c.block) for t_ in consume_targets):
+                bad.append(c.span)
+        r2.check(bool(drops) and not bad, "verdict-dropped-only-when-consumed", "plugin_output is reset to None only in the arms that consume a Deny/Intercept (%d sites) and at initialisation" % len(drops),
+                 "the pending plugin verdict is dropped outside the arms that consume it (%s): the refused batch stays buffered across a release (`BEGIN; Parse(denied) Bind Execute; COMMIT; Sync`) and the next Sync forwards it" % bad)
+
     # ---------------- R5 order and disabled behaviour
     r5 = ctx.rule("C19-R5", "with plugins disabled nothing is blocked; intercept is consulted before table_access; an Intercept payload ends with ReadyForQuery", floor=4)
     ex = ctx.body(EXECC, r5)
